@@ -4,7 +4,8 @@ THEOREMS_TIED = ["Rustic.Props.C13.treeStreamerOnce_any_order", "Rustic.Props.C1
                  "Rustic.Props.C13.treeId_independent_of_index", "Rustic.Props.C13.pipeline_progress",
                  "Rustic.Props.C13.network_progress", "Rustic.Props.C13.archiver_network_progress",
                  "Rustic.Props.C13.snapshot_is_function_of_source",
-                 "Rustic.Props.C13.treeStreamerOnce_threads_any_schedule", "Rustic.Props.C13.treeStreamerOnce_threads_progress", "Rustic.Props.C13.treeStreamerOnce_stuck_only_on_full_queue",
+                 "Rustic.Props.C13.treeStreamerOnce_threads_any_schedule", "Rustic.Props.C13.treeStreamerOnce_threads_progress", "Rustic.Props.C13.treeStreamerOnce_threads_terminates",
+                 "Rustic.Props.C13.addRaw_lock_terminates", "Rustic.Props.C13.treeStreamerOnce_stuck_only_on_full_queue",
                  "Rustic.Props.C13.bounded_queue_can_deadlock", "Rustic.Props.C13.addRaw_lock_progress",
                  "Rustic.Props.C13.progress_needs_no_lock_across_blocking_send", "Rustic.Props.C13.lock_held_across_send_can_deadlock"]
 
